@@ -350,6 +350,9 @@ func (c *MemConn) WriteTo(p []byte, addr net.Addr) (int, error) {
 	if !ok {
 		dst = Addr(addr.String())
 	}
+	if SchedPoint != nil {
+		SchedPoint("Emit", c) // E2: an emission is observable, so it is a scheduling point of its own
+	}
 	d := c.w.emit(c.addr, dst, p)
 	if h := c.w.OnEmit; h != nil {
 		h(d)
@@ -486,6 +489,10 @@ func (w *World) Ops() []*Op {
 	defer w.mu.Unlock()
 	return append([]*Op(nil), w.ops...)
 }
+
+// SchedPoint, when set (by the E2 layer), is called before every observable harness-side action of a
+// library goroutine; it parks the goroutine until the explorer grants it.
+var SchedPoint func(kind string, obj any)
 
 // ErrHorizon marks a pump that ran out of fake time.
 var ErrHorizon = errors.New("world: fake-time horizon reached")
